@@ -29,7 +29,7 @@ def dec(s):
 class P(html.parser.HTMLParser):
     def __init__(self):
         super().__init__(convert_charrefs=True)
-        self.calls = []; self.entries = {"fn": [], "cn": [], "gn": []}; self.hids = []; self.toc = []; self.xrefs = []; self.intoc = 0; self.cur = None; self.divs = []
+        self.calls = []; self.entries = {"fn": [], "cn": [], "gn": []}; self.hids = []; self.toc = []; self.xrefs = []; self.intoc = 0; self.cur = None; self.divs = []; self.tids = []
 
     def handle_starttag(self, tag, attrs):
         a = dict(attrs)
@@ -37,6 +37,7 @@ class P(html.parser.HTMLParser):
             self.divs.append(a.get("class", ""))
             if a.get("class") == "TOC": self.intoc += 1
         if tag in ("h1", "h2", "h3", "h4", "h5", "h6") and "id" in a: self.hids.append(dec(a["id"]))
+        if tag == "table": self.tids.append(dec(a.get("id", "")))
         if tag == "li" and a.get("id", "")[:3] in ("fn:", "cn:", "gn:"):
             k = a["id"][:2]; self.cur = [a["id"][3:], ""]; self.entries[k].append(self.cur)
         if tag == "a":
@@ -99,8 +100,15 @@ def run(tier, seed):
             x = ev["ext"]
             trace.append(dict(e="reset"))
             trace.append(dict(e="anchors", doc=d["doc"], src=d["src"], random=bool(x & E["RANDOM_FOOT"]), unique=bool(x & E["RANDOM_LABELS"]), labels=not (x & (E["RANDOM_LABELS"] | E["NO_LABELS"])),
-                              calls=p.calls, entries=p.entries, hids=p.hids, toc=p.toc, xrefs=p.xrefs, ext=x))
-    acc, rejected, states, info = tlc.validate_trace("NotesTrace", os.path.join(VERIF, "spec", "NotesTrace.cfg"), trace, max_rejects=40, timeout=1500, independent=True)
+                              calls=p.calls, entries=p.entries, hids=p.hids, tids=p.tids, toc=p.toc, xrefs=p.xrefs, ext=x))
+    acc, rejected, states, info = tlc.validate_trace("NotesTrace", os.path.join(VERIF, "spec", "NotesTrace.cfg"), trace, max_rejects=60, timeout=1500, independent=True)
+    # the two listed deviations under random heading ids are named actions of NotesTrace (XrefByTitle, TocOutOfStep): every event that takes one is reported here
+    devs = {}
+    for ev in trace:
+        if ev.get("e") != "anchors" or not ev["unique"]: continue
+        d = ev["doc"]
+        if [x for x in ev["xrefs"] if x not in ("tbl", "cap") and x not in ev["hids"]]: devs.setdefault("unique:xref-uses-title-label-but-heading-id-is-random", []).append(ev)
+        if d["toc"] and ev["toc"] and any(h["manual"] for h in d["heads"]) and not all(t in ev["hids"] for t in ev["toc"]): devs.setdefault("unique:toc-ids-out-of-step-after-manual-label", []).append(ev)
     nconv = len([e for e in trace if e["e"] == "anchors"])
     chk.add("traces_validated_against_impl", nconv - len(rejected))
     chk.cov["evaluations"] = nconv; chk.cov["distinct_nontrivial"] = len(dl)
@@ -125,6 +133,11 @@ def run(tier, seed):
         if key in seen: seen[key] += 1; continue
         seen[key] = 1
         chk.report(key, "anchors of %r [%s]: calls=%s entries=%s hids=%s toc=%s xrefs=%s" % (ev["src"][:260], mode, ev["calls"], json.dumps(ev["entries"]), ev["hids"], ev["toc"], ev["xrefs"]), dict(src=ev["src"], ext=ev["ext"]))
+    rej_ids = {id(seg[idx]) for seg, idx in rejected}
+    for key, evs in devs.items():
+        for ev in evs:
+            if id(ev) in rej_ids: continue
+            chk.report(key, "anchors of %r [unique]: hids=%s toc=%s xrefs=%s" % (ev["src"][:260], ev["hids"], ev["toc"], ev["xrefs"]), dict(src=ev["src"], ext=ev["ext"]))
     for kind, a, b in problems:
         k, f = san_signature(b.get("san", "")); key = "%s:%s:%s" % (b["status"], k, f)
         if key in seen: seen[key] += 1; continue
